@@ -372,7 +372,7 @@ func Harness_C05_Snapshot() {
 }
 
 func Harness_C05_Twin() {
-	m := &mockThings{}
+	m := &mockThings{item: &vt.Item{Name: "x"}}
 	h := newServer(m)
 	verb := c05Verbs[verif.Choose(len(c05Verbs))]
 	rec, _ := serve(h, verb, "/things/k", nil, nil)
